@@ -11,22 +11,27 @@ import os, random
 from lib.core import zlit, zlist
 
 MANIFEST = {
-    'text': 'Value-level theorems in Coq (Convert.v): with the same random integer r embedded in both fields, '
-            'int->int/int->fxp conversion returns exactly x (shifted by 2^d) for every r in the range the code draws from '
-            'whenever x fits min(l_s,l_t) bits and both primes exceed 2^(k+l+1); fxp->int returns floor or floor+1 of the '
-            'real value for every tape (via the trunc theorem of Masked.v); field sources return the canonical signed/unsigned '
-            'representative under the explicit no-wrap condition of the inner _mod. Tie: every ordered pair of '
-            'secint 8/16/32, secfxp (16,8)/(32,16), secfld over 11, 13(signed), 251, 241(signed) and two 64-bit primes '
-            '(signed/unsigned) is converted in the multi-party simulator for (m,t) in {(1,0),(2,0),(3,1),(4,1),(5,2)} x '
-            'PRSS on/off (thorough adds (7,3)) on inputs shared with mpc.input: range extremes, all values of the <= 8-bit '
-            'types, random others; every party\'s output is compared with a Python oracle (value preserved / floor or '
-            'floor+1 / canonical representative).',
-    'note': 'Share-level layer (input, output, PRSS, trunc/_mod sub-protocol shares) is covered by the simulator runs only. '
-            'The Coq model is evaluated on the cases of the runs with random in-range r (and trunc / _mod tapes) and must give '
-            'the oracle value (or lie in the oracle set) and agree with the implementation outputs; tapes of the runs are '
-            'not extracted. Signed and unsigned field types use different primes because SecFld caches the type per field '
-            'and overwrites field.is_signed (observed aliasing, outside C06). Sources that are prime fields wider than the '
-            'target (order.bit_length() > target bit length) are a separate stream: see known finding F-C06-1.',
+    'text': 'Value-level theorems in Coq (Convert.v, 4 statements in props/C06.v, closed under the global context): with the '
+            'same random integer r embedded in both fields, int->int / int->fxp / fxp->fxp(more fractional bits) conversion '
+            'returns exactly x*2^d in the target field for every r in the range the code draws from whenever x fits '
+            'l = min(l_s,l_t) bits and the source prime exceeds 2^(k+l+1); fxp->int (d<0) returns floor or floor+1 of the '
+            'real value for every tape (via trunc_floor_or_ceil of Masked.v); a prime-field source converted to SecInt(lt) '
+            'with order < 2^lt keeps the canonical signed/unsigned representative under the explicit no-wrap condition of '
+            'the inner _mod (via mod_correct). Tie: every ordered pair of secint 8/16/32, secfxp (16,8)/(32,16), secfld over '
+            '11, 13(signed), 251, 241(signed) and two 64-bit primes (unsigned/signed) is converted in the multi-party '
+            'simulator for (m,t) in {(1,0),(2,0),(3,1),(4,1),(5,2)} x PRSS on/off (thorough adds (7,3)) on inputs shared '
+            'with mpc.input: range extremes, all values of the <= 8-bit types (sweep configurations), random others; every '
+            'party\'s output is compared with a Python oracle (value preserved / floor or floor+1 / canonical representative) '
+            'and all parties must agree.',
+    'note': 'Share-level layer (input, output, PRSS, shares of the trunc/_mod sub-protocols) is covered by the simulator '
+            'runs only. The Coq model convert_v is evaluated on int/fxp-source cases of the runs with random in-range r and '
+            'trunc tapes and must lie in the oracle set and agree with the implementation outputs (input/output level; tapes '
+            'of the runs are not extracted); field sources are covered by the theorem and the runs, not by model evaluation '
+            '(their _mod is tied to the code in C01). Quick tier: every pair in the (3,1,PRSS) configuration and in about a '
+            'third of the others. Signed and unsigned field types use different primes because SecFld caches the type per '
+            'field and overwrites field.is_signed (observed aliasing, outside C06). int->field of values outside the target '
+            'range and field->field of representatives that do not fit are outside the premise and not checked. Sources '
+            'that are prime fields wider than the target are a separate stream: known finding F-C06-1.',
     'technique': 'Coq proof of the masked-conversion arithmetic + multi-party simulator differential testing against a Python oracle',
 }
 
